@@ -153,8 +153,15 @@ CLAIMED["C11"] = (
     "decided; the flat pandas objects are a labelled contract model (DESIGN 0 item 9); _preprocess_arguments is cut to the real "
     "convert_data_to_arr_list_and_keys; candidates are replayed through GroupBy(keys, sort=...) with real containers", "DESIGN.md 4 C11")
 
+CLAIMED["C14"] = (
+    "in part (single key): with margins=True every ordinary row is unchanged and the one 'All' row equals the same aggregation over all selected rows of "
+    "all groups - sum/count/size add up, min/max are the extremes, mean is total sum over total count (not a mean of means) - for every code sequence, "
+    "values, null placement and boolean mask within the bound; the real _apply_gb_reduction(margins=True), _add_margins and add_row_margin (one level) "
+    "run on the labelled pandas contract model; N<=3, G<=2 (quick), N<=4, G<=3 (thorough)",
+    "several keys ('All' combinations per level subset, re-indexing onto the cartesian grid, sparse label combinations) and crosstab (unstack, column "
+    "ordering) are pandas reshaping code and NOT decided", "DESIGN.md 4 C14")
+
 NOT_APPLICABLE = {
-    "C14": "margins and crosstab are reindex/groupby(level)/concat/unstack on pandas objects; not encodable (DESIGN.md 5)",
     "C17": "the facade is pandas objects end to end and its oracle is pandas' own groupby; only structural argument routing would be within reach (DESIGN.md 5)",
     "C18": "raise-versus-return is decided by concrete len()/Index.equals comparisons in pandas-level glue; a solver would only enumerate a handful of integers (DESIGN.md 5)",
 }
